@@ -6,9 +6,77 @@ def run(ctx):
     cache_corr.history_campaign(ctx, camp, ctx.n(60, 1200), ctx.n(6, 8))
     import cache_files
     cache_files.run_file_histories(ctx, camp.found)     # real file stores, real modified times
+    import c08_files
+    c08_files.overlapping_writes(ctx)     # file stores with the same stem written at overlapping times, then the repairing run
+    interrupted_write(ctx, camp.add)
     import depviews
     depviews.run(ctx, camp.add)
     import tz_histories
     tz_histories.run(ctx, camp.add, "C03")       # the same decisions in processes running in other time zones
     camp.eval_model()
     camp.file({"C03"})
+
+
+def interrupted_write(ctx, add):
+    """Ctrl-C while a store write is in flight: when run raises, no write is still going on, so a source update made right
+    afterwards is newer than everything the interrupted run wrote, and the next run gives the from-scratch values."""
+    import datetime as dt
+    import itertools
+    import signal
+    import threading
+    import time
+    uj = core.use_repo()
+    clock = itertools.count(1)
+    now = lambda: dt.datetime(2020, 1, 1) + dt.timedelta(seconds=next(clock))
+    for workers in (1, 3):
+        writing = threading.Event()
+
+        class Mem(uj.ValueStore):
+            def __init__(self, v=None, slow=False):
+                self.v, self.t, self.slow, self.in_flight = v, (now() if v is not None else None), slow, False
+
+            def read(self):
+                return self.v
+
+            def write(self, v):
+                self.in_flight = True
+                if self.slow and not writing.is_set():
+                    writing.set()
+                    time.sleep(0.6)
+                self.v, self.t = v, now()
+                self.in_flight = False
+
+            def get_modified_time(self):
+                return self.t
+        src, a_st, b_st = Mem(10), Mem(slow=True), Mem()
+        plan, reg = uj.Plan(), uj.Registry()
+        s_ = reg.source(plan, src)
+        a = plan.call(lambda v: v * 2, s_)
+        reg.add(a, a_st)
+        b = plan.call(lambda v: v + 1, a)
+        reg.add(b, b_st)
+
+        def killer():
+            writing.wait(10)
+            time.sleep(0.1)
+            signal.pthread_kill(threading.main_thread().ident, signal.SIGINT)
+        th = threading.Thread(target=killer, daemon=True)
+        th.start()
+        try:
+            try:
+                uj.run(plan, registry=reg, output=b, max_workers=workers, progress=None)
+                first = "returned"
+            except KeyboardInterrupt:
+                first = "interrupted"
+        except KeyboardInterrupt:
+            first = "interrupted-late"
+        still = a_st.in_flight or b_st.in_flight
+        src.v, src.t = 50, now()              # the source is updated right after the interrupted run
+        time.sleep(1.0)
+        th.join(5)
+        got = uj.run(plan, registry=reg, output=b, max_workers=1, progress=None)
+        ctx.case(("c03-interrupted-write", workers))
+        ctx.count("interrupted_write_first_run", first)
+        if still or got != 101 or a_st.v != 100 or b_st.v != 101:
+            add("C03", "interrupted-write", "Ctrl-C during a store write (%s): a write was still in flight when run raised: %s; after a source update the next run "
+                "returned %r and left %r / %r, from scratch: 101, 100 / 101" % (first, still, got, a_st.v, b_st.v), {"max_workers": workers, "first_run": first})
